@@ -631,6 +631,10 @@ func (x *Exec) havocLoop(fr *frame, st *State, li *load.LoopInfo) *State {
 					}
 				}
 			case *ssa.MapUpdate:
+				if vn, _, hn, _, ok := x.mapHeaps(in.Map.Type()); ok {
+					heaps[vn] = true
+					heaps[hn] = true
+				}
 			case ssa.CallInstruction:
 				pure, hs, clos := x.callEffects(fr, in)
 				if clos {
@@ -714,7 +718,12 @@ func (x *Exec) callEffects(fr *frame, in ssa.CallInstruction) (pure bool, heaps 
 	c := in.Common()
 	if b, ok := c.Value.(*ssa.Builtin); ok {
 		switch b.Name() {
-		case "len", "cap", "max", "min", "ssa:deferstack", "panic", "print", "println", "close", "delete":
+		case "len", "cap", "max", "min", "ssa:deferstack", "panic", "print", "println", "close":
+			return true, nil, false
+		case "delete":
+			if _, _, hn, _, ok := x.mapHeaps(c.Args[0].Type()); ok {
+				return false, []string{hn}, false
+			}
 			return true, nil, false
 		case "append", "copy":
 			if sl, ok := c.Args[0].Type().Underlying().(*types.Slice); ok {
@@ -900,8 +909,10 @@ func (x *Exec) execInstrs(fr *frame, st *State, b *ssa.BasicBlock, from int, pre
 		case *ssa.MakeClosure:
 			fr.closures[in] = in
 			fr.regs[in] = x.freshRef(st, "closure")
-		case *ssa.MakeMap, *ssa.MakeChan:
-			fr.regs[in.(ssa.Value)] = x.freshRef(st, "obj")
+		case *ssa.MakeMap:
+			x.doMakeMap(fr, st, in)
+		case *ssa.MakeChan:
+			fr.regs[in] = x.freshRef(st, "obj")
 		case *ssa.Phi:
 			set := false
 			for k, e := range in.Edges {
@@ -916,6 +927,9 @@ func (x *Exec) execInstrs(fr *frame, st *State, b *ssa.BasicBlock, from int, pre
 		case *ssa.TypeAssert:
 			x.doTypeAssert(fr, st, in)
 		case *ssa.Lookup, *ssa.Select, *ssa.Next, *ssa.Range:
+			if lk, ok := in.(*ssa.Lookup); ok && x.doLookup(fr, st, lk) {
+				break
+			}
 			v := in.(ssa.Value)
 			if tu, ok := v.Type().(*types.Tuple); ok {
 				var ts []smt.T
@@ -928,6 +942,9 @@ func (x *Exec) execInstrs(fr *frame, st *State, b *ssa.BasicBlock, from int, pre
 			}
 			x.diag("%s: %T treated as opaque", fr.fn.Name(), in)
 		case *ssa.MapUpdate, *ssa.Send:
+			if mu, ok := in.(*ssa.MapUpdate); ok && x.doMapUpdate(fr, st, mu) {
+				break
+			}
 			x.diag("%s: %T has no modelled effect (maps/channels are opaque)", fr.fn.Name(), in)
 		case *ssa.Go:
 			x.diag("%s: go statement ignored (sequential semantics)", fr.fn.Name())
@@ -1319,6 +1336,9 @@ func (x *Exec) entryHeapAxiom(name, sort string, h smt.T) {
 		x.axioms["nofresh:"+name] = "(assert (forall ((r!a Int)) (! (=> (not (fresh$ r!a)) (not (fresh$ (s.arr " + sl + ")))) :pattern (" + sl + "))))\n" +
 			// every slice stored in the heap is well formed
 			"(assert (forall ((r!a Int)) (! (and (<= 0 (s.off " + sl + ")) (<= 0 (s.len " + sl + ")) (<= (s.len " + sl + ") (s.cap " + sl + ")) (<= 0 (s.arr " + sl + ")) (=> (= (s.arr " + sl + ") 0) (and (= (s.len " + sl + ") 0) (= (s.cap " + sl + ") 0)))) :pattern (" + sl + "))))"
+	case strings.HasPrefix(name, "MV$") && elemSortOf(el) == smt.Int && x.heapHoldsRefs[name]:
+		ks := indexSortOf(el)
+		x.axioms["nofresh:"+name] = "(assert (forall ((r!a Int) (k!a " + ks + ")) (! (=> (not (fresh$ r!a)) (not (fresh$ (select (select " + h.S + " r!a) k!a)))) :pattern ((select (select " + h.S + " r!a) k!a)))))"
 	case strings.HasPrefix(el, "(Array Int ") && strings.HasPrefix(name, "E$") && (elemSortOf(el) == smt.Int && x.heapHoldsRefs[name]):
 		x.axioms["nofresh:"+name] = "(assert (forall ((r!a Int) (i!a Int)) (! (=> (not (fresh$ r!a)) (not (fresh$ (select (select " + h.S + " r!a) i!a)))) :pattern ((select (select " + h.S + " r!a) i!a)))))"
 	}
